@@ -77,6 +77,7 @@ var types = []typ{
 }
 
 type gen struct {
+	taken     map[string]bool
 	enumQuery bool
 	rng      *rand.Rand
 	id       string
@@ -126,9 +127,37 @@ func (g *gen) name(used map[string]bool) string {
 	}
 }
 
+// namespace in which a handler's name must be unique
+func nameSpace(form string) string {
+	switch form {
+	case "method", "otherFileMethod":
+		return "controller"
+	case "valueMethod", "localRecv":
+		return "controllerV"
+	case "func", "otherFileFunc":
+		return "func"
+	case "importedMethod":
+		return "inner.Controller"
+	case "importedFunc":
+		return "inner.func"
+	}
+	return "lit"
+}
+
 func (g *gen) handler(form string) *Handler {
 	h := &Handler{Form: form, Name: fmt.Sprintf("h%d", g.nh)}
 	g.nh++
+	// the same handler name on several receivers / as a function (List, Create … in real code)
+	if g.chance(0.35) && form != "lit" {
+		for _, n := range []string{"List", "Create", "Update"} {
+			key := nameSpace(form) + "." + n
+			if !g.taken[key] {
+				g.taken[key] = true
+				h.Name = n
+				break
+			}
+		}
+	}
 	h.Inner = form == "importedFunc" || form == "importedMethod"
 	used := map[string]bool{}
 	n := g.rng.Intn(6)
@@ -340,7 +369,7 @@ func New(rng *rand.Rand, id string) *Table { return NewWith(rng, id, false) }
 
 // NewWith: enumQuery lets the generic query helper be instantiated with an enum type.
 func NewWith(rng *rand.Rand, id string, enumQuery bool) *Table {
-	g := &gen{rng: rng, id: id, mainPath: synth.ModulePath + "/" + id, enumQuery: enumQuery}
+	g := &gen{rng: rng, id: id, mainPath: synth.ModulePath + "/" + id, enumQuery: enumQuery, taken: map[string]bool{}}
 	t := &Table{MainPath: g.mainPath}
 	parts := []pathPart{
 		{`"/api"`, "/api"}, {`"/x"`, "/x"}, {`"/with_param/:param"`, "/with_param/:param"}, {`"/"`, "/"}, {`"seg"`, "seg"},
@@ -386,11 +415,15 @@ func NewWith(rng *rand.Rand, id string, enumQuery bool) *Table {
 			fmt.Fprintf(&otherDecls, "func %s(ctx echo.Context) error {\n%s}\n\n", h.Name, g.renderBody(h, "ctx", "helper"))
 			ref = h.Name
 		case "importedFunc":
-			h.Name = "H" + h.Name
+			if strings.HasPrefix(h.Name, "h") {
+				h.Name = "H" + h.Name
+			}
 			fmt.Fprintf(&innerDecls, "func %s(c echo.Context) error {\n%s}\n\n", h.Name, g.renderBody(h, "c", ""))
 			ref = "inner." + h.Name
 		case "importedMethod":
-			h.Name = "H" + h.Name
+			if strings.HasPrefix(h.Name, "h") {
+				h.Name = "H" + h.Name
+			}
 			fmt.Fprintf(&innerDecls, "func (ct Controller) %s(c echo.Context) error {\n%s}\n\n", h.Name, g.renderBody(h, "c", "ct"))
 			ref = "ci." + h.Name
 		case "lit":
